@@ -110,6 +110,14 @@ def run_one(exe, workdir, tag, prog, Guser, cfg, props, backend):
         return [("GEN", "reference evaluation failed: %s" % e)], "invalid", ref
     if ref.errors:
         return [("GEN", "; ".join(ref.errors[:3]))], "invalid", ref
+    if not os.environ.get("PTG_INCLUDE_KNOWN"):
+        # known finding C01-K2: a task whose only task-input is a ranged (control gather) dependency over an EMPTY range has
+        # no predecessor at all, but its class is not given a startup function: counted, never run.  Excluded by construction.
+        for e in prog.edges:
+            if e.kind == "ctl_gather":
+                for idx in ref.spaces[e.dst]:
+                    if not ref.preds_of[(e.dst, idx)]:
+                        return [], "excluded_known_empty_gather_range", ref
     erank_table = []
     if P > 1:
         dtab, etab = ref.ownership_tables(P)
@@ -206,6 +214,9 @@ def make_test(args, workroot):
             for k in range(ninst):
                 G, cfg = draw_instance(data.draw, prog, profile, props[0])
                 v, status, ref = run_one(exe, wd, "i%d" % k, prog, G, cfg, props, backend)
+                if status.startswith(("excluded", "skipped")):
+                    STATS.label(status)       # not executed: neither an evaluation nor a non-trivial case
+                    continue
                 STATS.evaluations += 1
                 STATS.label("status_" + status)
                 STATS.label("sched_" + cfg["sched"])
